@@ -27,6 +27,7 @@ import Driver.Suites.Wscap
 import Driver.Suites.Bucket
 import Driver.Suites.Sem
 import Driver.Suites.WsRange
+import Driver.Suites.MoveSend
 import Driver.Suites.MoveCrash
 import Driver.Suites.Codec
 import Driver.Suites.Reader
@@ -79,6 +80,7 @@ def registry : List Suite := [
   Suites.Bucket.suite,
   Suites.Sem.suite,
   Suites.WsRange.suite,
+  Suites.MoveSend.suite,
   Suites.MoveCrash.suite,
   Suites.Codec.suite,
   Suites.Reader.suite,
